@@ -10,8 +10,9 @@ Runs the repository's OWN parsers on the CURRENT source tree ($VERIF_REPO or /re
     expression strings, subflow names, created event types with their parameters);
   * Colang 2.x (`parse_colang_file(version="2.x")`) on
       nemoguardrails/colang/v2_x/library/guardrails.co
+      nemoguardrails/library/self_check/{input_check,output_check}/flows.co
     -> statement trees (`list stmt`) of `_user_said`, `_bot_say`, `run input rails`,
-    `run output rails`.
+    `run output rails`, and of the library rails `self check input` / `self check output`.
 
 Output: coq/theories/Gen/C01Flows.v (types come from Pipe/FlowCheck.v).  Fail-closed: any
 element type, key or shape outside the vocabulary below raises TranslatorError (the check then
@@ -217,26 +218,34 @@ def v2_block(elements) -> str:
     return "[" + "; ".join(items) + "]"
 
 
+V2_FILES = [
+    ("nemoguardrails/colang/v2_x/library/guardrails.co", "v2", V2_FLOWS),
+    # the library rails whose Colang 1.0 twins are translated above
+    ("nemoguardrails/library/self_check/input_check/flows.co", "v2lib", ["self check input"]),
+    ("nemoguardrails/library/self_check/output_check/flows.co", "v2lib", ["self check output"]),
+]
+
+
 def v2_flows():
     sys.path.insert(0, REPO)
     from nemoguardrails.colang import parse_colang_file
 
-    rel = "nemoguardrails/colang/v2_x/library/guardrails.co"
-    with open(os.path.join(REPO, rel), encoding="utf-8") as f:
-        parsed = parse_colang_file("guardrails.co", f.read(), version="2.x")
-    flows = {}
-    for fl in parsed["flows"]:
-        if fl.name in flows:
-            raise TranslatorError(f"duplicate flow {fl.name}")
-        flows[fl.name] = fl
     out = []
-    for name in V2_FLOWS:
-        if name not in flows:
-            raise TranslatorError(f"{rel}: flow `{name}` not found")
-        fl = flows[name]
-        els = list(fl.elements)
-        # element 0 is the synthetic `match StartFlow(flow_id=<name>)`
-        out.append((name, [p.name for p in fl.parameters], v2_block(els[1:])))
+    for rel, prefix, wanted in V2_FILES:
+        with open(os.path.join(REPO, rel), encoding="utf-8") as f:
+            parsed = parse_colang_file(os.path.basename(rel), f.read(), version="2.x")
+        flows = {}
+        for fl in parsed["flows"]:
+            if fl.name in flows:
+                raise TranslatorError(f"duplicate flow {fl.name}")
+            flows[fl.name] = fl
+        for name in wanted:
+            if name not in flows:
+                raise TranslatorError(f"{rel}: flow `{name}` not found")
+            fl = flows[name]
+            els = list(fl.elements)
+            # element 0 is the synthetic `match StartFlow(flow_id=<name>)`
+            out.append((prefix, name, [p.name for p in fl.parameters], v2_block(els[1:])))
     return out
 
 
@@ -256,9 +265,9 @@ def emit() -> str:
     lines = [HEADER]
     for name, elems in v1_flows():
         lines.append(f"Definition v1_{ident(name)} : list elem :=\n  [ " + ";\n    ".join(elems) + " ].\n")
-    for name, params, block in v2_flows():
-        lines.append(f"Definition v2_{ident(name)}_params : list string := [" + "; ".join(coq_str(p) for p in params) + "].")
-        lines.append(f"Definition v2_{ident(name)} : list stmt :=\n  {block}.\n")
+    for prefix, name, params, block in v2_flows():
+        lines.append(f"Definition {prefix}_{ident(name)}_params : list string := [" + "; ".join(coq_str(p) for p in params) + "].")
+        lines.append(f"Definition {prefix}_{ident(name)} : list stmt :=\n  {block}.\n")
     return "\n".join(lines) + "\n"
 
 
